@@ -290,6 +290,9 @@ func runC05(c *hx.Ctx) {
 		msg = c05TotalProbe(sc)
 		c.Check("create-then-checkzip-ok", msg == "", "", zipIn{Op: "totalsize"}, msg)
 	}
+	for _, files := range zipCorpusLists() {
+		c05List(c, sc, module.Version{Path: "example.com/m", Version: "v1.2.3"}, files, "corpus")
+	}
 	for i := 0; i < c.N(3500); i++ {
 		m := gen.ZipModuleVersion(r)
 		var files []gen.ZipFileSpec
